@@ -80,7 +80,9 @@ func Faults() {
 		vx.ClockMin(t0 + 2*secs(pol.Revoke) + 2)
 	}
 	vx.Now()
-	vx.ClockFreeze(true)
+	// freeze=0: time also advances inside the call under test (every reading of the clock is a later-or-equal
+	// instant: a KMS round trip may straddle a CreateDatePrecision boundary)
+	vx.ClockFreeze(vx.Param("freeze") == 1)
 	snap := e.Store.Snapshot()
 	payload := vx.Bytes("payload", 2)
 	keep := append([]byte(nil), payload...)
